@@ -54,6 +54,10 @@ type aPObj struct {
 	OwnerRefs bool `json:"ownerrefs"`
 	DryReject bool `json:"dryreject"`
 	ApplyDry404 bool `json:"applydry404,omitempty"` // the dry-run apply answers NotFound; the fallback dry-run create is accepted
+	// Noise: the template presets metadata keys that Package Operator owns (bit 1: revision annotation "1",
+	// bit 2: cache label "False", bit 4: a foreign package label). The model has no such field: what is applied
+	// must not depend on it.
+	Noise int `json:"noise,omitempty"`
 }
 
 // A third-party operation executed directly on the store.
@@ -106,6 +110,7 @@ type phaseObs struct {
 	NextRV   int64    `json:"next_rv"`
 	NextUID  int64    `json:"next_uid"`
 	Requests []string `json:"requests"`
+	ReqKeys  []aKey   `json:"req_keys"` // object named by each request (parallel to Requests)
 	// OtherWrites: non-dry-run write requests on member kinds with a verb the reconcilers never use
 	// (create, update, ...): each one is a write outside the apply / release-patch / delete paths.
 	OtherWrites []string `json:"other_writes"`
@@ -129,6 +134,24 @@ func (p aPObj) concrete() corev1alpha1.ObjectSetObject {
 	}
 	if p.ApplyDry404 {
 		md["annotations"] = map[string]any{applyDry404Annotation: "true"}
+	}
+	if p.Noise&1 != 0 {
+		an, _ := md["annotations"].(map[string]any)
+		if an == nil {
+			an = map[string]any{}
+		}
+		an["package-operator.run/revision"] = "1"
+		md["annotations"] = an
+	}
+	if p.Noise&6 != 0 {
+		lb := map[string]any{}
+		if p.Noise&2 != 0 {
+			lb[constants.DynamicCacheLabel] = "False"
+		}
+		if p.Noise&4 != 0 {
+			lb[pkgLabel] = "someone-else"
+		}
+		md["labels"] = lb
 	}
 	return corev1alpha1.ObjectSetObject{
 		Object: unstructured.Unstructured{Object: map[string]any{
@@ -511,6 +534,10 @@ func init() {
 		}
 		obs.Events = eventsFromLog(s.Log)
 		obs.Requests = requestSummary(s.Log)
+		obs.ReqKeys = []aKey{}
+		for _, r := range s.Log {
+			obs.ReqKeys = append(obs.ReqKeys, abstractKey(r.Key))
+		}
 		obs.OtherWrites = otherWrites(s.Log)
 		obs.Post = abstractStore(s)
 		obs.NextRV, obs.NextUID = s.Counters()
